@@ -29,7 +29,8 @@ theorem png_rt (colors columns bpc : Nat) (hbpc : bpc = 8 ∨ bpc = 1) (rows : L
     (hfts : ∀ f ∈ fts, f ≤ 4) :
     apply_png_predictor colors columns bpc (pngEnc colors columns bpc fts rows) = .ok rows.flatten := by
   have hb : (bpc != 8 && bpc != 1) = false := by rcases hbpc with rfl | rfl <;> rfl
-  unfold apply_png_predictor pngEnc
+  rw [apply_png_predictor_lit]
+  unfold pngEnc
   rw [hb]
   simp only [Bool.false_eq_true, if_false]
   exact pngRows_rt _ _ (by unfold pngBpp; omega) rows fts _ _ hrows hlen hfts (by simp) (Nat.le_refl _)
@@ -48,7 +49,7 @@ theorem tiff_rt (colors columns : Nat) (hc : 0 < colors) (hw : 0 < columns) (row
     apply_tiff_predictor colors columns 8 (tiffEnc colors rows) = .ok rows.flatten := by
   have hn : 0 < columns * colors := Nat.mul_pos hw hc
   have h0 : (columns * colors == 0) = false := by simp; omega
-  unfold apply_tiff_predictor
+  rw [apply_tiff_predictor_lit]
   simp only [h0]
   exact tiffRows_rt _ _ hc hn rows _ hrows (Nat.le_refl _)
 
@@ -277,15 +278,15 @@ theorem predictor_rt (pr : Option Parms) (y z : Bytes) (h : PredEncodes pr y z) 
   cases h with
   | none => rfl
   | noPredictor p y h =>
-    rcases h with h | h <;> simp [applyPredictor, h]
+    rcases h with h | h <;> simp [applyPredictor_lit, h]
   | tiff p rows hp hb hc hw hrows =>
-    simp only [applyPredictor, hp]
+    simp only [applyPredictor_lit, hp]
     have h1 : ((2 : Nat) == 1) = false := rfl
     have h2 : ((2 : Nat) == 2) = true := rfl
     simp only [h1, h2, Bool.false_eq_true, if_false, if_true, hb]
     exact tiff_rt _ _ hc hw rows hrows
   | png p pred rows fts hp h10 hb hrows hlen hfts =>
-    simp only [applyPredictor, hp]
+    simp only [applyPredictor_lit, hp]
     have h1 : (pred == 1) = false := by simp; omega
     have h2 : (pred == 2) = false := by simp; omega
     simp only [h1, h2, Bool.false_eq_true, if_false, ge_iff_le, h10, if_true]
@@ -578,8 +579,8 @@ theorem tiff_translated (colors columns bpc : Nat) (data : Bytes) (bpp : Nat) (r
         then UInt8.ofNat ((x.toNat + (raw.getD (raw.length - bpp) 0).toNat) % TIFF_MOD) else x]) xs := by
   constructor
   · by_cases h : bpc = 8
-    · subst h; simp [apply_tiff_predictor, TIFF_BPC, tiffNbytes, tiffBpp]
-    · simp [apply_tiff_predictor, TIFF_BPC, h]
+    · subst h; simp [apply_tiff_predictor]
+    · simp [apply_tiff_predictor, h]
   · simp only [tiffRow, tiffHasLeft, TIFF_MOD]
     congr 2
     by_cases h : raw.length ≥ bpp <;> simp [h]
@@ -673,7 +674,7 @@ theorem predictor_translated (p : Parms) (pred : Nat) (data : Bytes) (hp : p.pre
        | 2 => apply_png_predictor (p.colors.getD PRED_PNG_DEFAULTS.1) (p.columns.getD PRED_PNG_DEFAULTS.2.1)
                 (p.bpc.getD PRED_PNG_DEFAULTS.2.2) data
        | _ => .error .pdfNotImplemented) := by
-  simp only [applyPredictor, hp, predKind, PRED_TIFF_DEFAULTS, PRED_PNG_DEFAULTS]
+  simp only [applyPredictor_lit, hp, predKind, PRED_TIFF_DEFAULTS, PRED_PNG_DEFAULTS]
   by_cases h1 : pred = 1
   · simp [h1]
   · by_cases h2 : pred = 2
